@@ -152,6 +152,12 @@ func (x *Exec) appendCall(e *ast.CallExpr, st *State) Val {
 	kt := mk(k.Name, SInt)
 	st.assume(Forall([]BoundVar{k}, Implies(And(Le(IntLit(0), kt), Lt(kt, oldLen)),
 		Eq(Select(na, IdxAdd(off, kt)), Select(oldArr, IdxAdd(oldOff, kt))))))
+	// the same fact again, triggered by reads of the OLD array (needed to
+	// carry existential facts about old elements over to the new slice)
+	kb := BoundVar{Name: x.freshBound("k"), Sort: SInt}
+	kbt := mk(kb.Name, SInt)
+	st.assume(Forall([]BoundVar{kb}, Implies(And(Le(IntLit(0), kbt), Lt(kbt, oldLen)),
+		Eq(Select(na, IdxAdd(off, kbt)), Select(oldArr, IdxAdd(oldOff, kbt)))), Select(oldArr, IdxAdd(oldOff, kbt))))
 	// new elements
 	if spread != nil {
 		sarr := st.sel(h, slReg(spread.T))
